@@ -43,7 +43,7 @@ class C09(Check):
                    'well-posed problems use quasi-uniform breakpoints (interval widths within a factor 3) and weights within 3 '
                    'decades, so cond(A^T W A) <~ 1e8 and the 1e-7*max|y| tolerance on fitted values has margin; wildly uneven '
                    'knot vectors legitimately trigger the fit\'s min_influence guard (status -1) and are not asserted to give 0']
-    REQUIRED_COUNTERS = ('wellposed_abscissae_with_large_offset', 'wellposed_zero_weight_points_outside_the_knots', 'solve_rhs_be_f8', 'solve_rhs_f4', 'canary_sequences', 'status0_optimality_checked', 'wellposed_status0', 'maskpoints_entered', 'cholesky_fallback_entered', 'status_minus1', 'status_minus2',
+    REQUIRED_COUNTERS = ('long_fits_points_times_order_over_2**21', 'wellposed_weakest_coefficient_below_1e-10_of_strongest', 'wellposed_abscissae_with_large_offset', 'wellposed_zero_weight_points_outside_the_knots', 'solve_rhs_be_f8', 'solve_rhs_f4', 'canary_sequences', 'status0_optimality_checked', 'wellposed_status0', 'maskpoints_entered', 'cholesky_fallback_entered', 'status_minus1', 'status_minus2',
                          'spd_factorisations', 'nonpd_signalled', 'nonfinite_signalled', 'zero_weight_invariance_checked')
     CASE_CPU_S = 60
 
@@ -64,7 +64,7 @@ class C09(Check):
 
     def budget(self, tier):
         k = 1 if tier == 'quick' else 120
-        return {'wellposed': 500 * k, 'cholesky_spd': 400 * k, 'cholesky_bad': 400 * k, 'illposed': 600 * k}
+        return {'wellposed': 500 * k, 'cholesky_spd': 400 * k, 'cholesky_bad': 400 * k, 'illposed': 600 * k, 'long': 4 if tier == 'quick' else 40}
 
     # ------------------------------------------------------------------ gen
     def gen(self, cls, rng, i):
@@ -121,8 +121,30 @@ class C09(Check):
                 off = rng.choice([2451545.0, 2460000.5, 1.7e9, 1.0e5, -3.0e4, 2.0 ** 20])
                 x = x + off
                 edges = edges + off
-            return {'kind': cls, 'x': x.tolist(), 'y': y.tolist(), 'w': w.tolist(), 'nord': k, 'bkpt': edges.tolist(),
+            case = {'kind': cls, 'x': x.tolist(), 'y': y.tolist(), 'w': w.tolist(), 'nord': k, 'bkpt': edges.tolist(),
                     'seed': rng.getrandbits(32)}
+            if rng.random() < 0.15:
+                # the weight concentrated on one or two very precise pixels among many ordinary ones (a cosmic-ray-free standard
+                # star pixel among sky pixels, a pixel with a mis-scaled variance): 20-60 segments, ordinary weights within a
+                # factor 2 of each other; how precise is decided at run time so that every coefficient stays supported (see run)
+                k = rng.randint(3, 5)
+                nint = rng.randint(20, 60)
+                per = rng.randint(k + 1, k + 8)
+                edges = np.linspace(0, 10, nint + 1)
+                x = np.sort(np.concatenate([g.uniform(a + 0.02 * (b - a), b - 0.02 * (b - a), per) for a, b in zip(edges[:-1], edges[1:])]
+                                           + [[0.0, 10.0]]))
+                w = g.uniform(0.5, 2.0, x.size) * 10 ** rng.choice([0, 0, -6, 5])
+                y = scale * (np.sin(x * rng.uniform(0.3, 2)) + g.normal(0, 0.1, x.size))
+                case.update(x=x.tolist(), y=y.tolist(), w=w.tolist(), nord=k, bkpt=edges.tolist(),
+                            precise={'idx': sorted(int(j) for j in g.choice(np.arange(3, x.size - 3), rng.randint(1, 2), replace=False)),
+                                     'tau': rng.uniform(0.1, 0.45)})
+            return case
+        if cls == 'long':
+            # long vectors (a whole plate's sky pixels, a co-added stack): the number of points times the order just beyond a power
+            # of two between 2**20 and 2**22, never an exact multiple of a round block size; the data are made from the seed at run time
+            k = rng.randint(2, 6)
+            nx = (2 ** rng.choice([20, 21, 21, 22])) // k + rng.choice([1, 2, 3, 7, 100, 1001, 4097, 65537])
+            return {'kind': cls, 'nord': k, 'nx': nx, 'nint': rng.randint(3, 12), 'seed': rng.getrandbits(32)}
         if cls in ('cholesky_spd', 'cholesky_bad'):
             bw = rng.randint(1, 6)
             n = rng.randint(max(2, bw), 60)
@@ -260,6 +282,29 @@ class C09(Check):
             inside = (x >= xg.min()) & (x <= xg.max())
             out.count('wellposed_zero_weight_points_outside_the_knots', int((~inside).sum()))
             s = B.bspline(xg, nord=k, bkpt=np.array(case['bkpt']))
+            if case.get('precise'):
+                # "supported" has a quantitative meaning in fit(): the diagonal of the normal equations of every coefficient,
+                # sum(invvar * B_j(x)^2), must exceed 1e-10 of the mean inverse variance per coefficient.  The precise pixels get the
+                # largest weight for which every coefficient keeps a margin 1/tau (2.2 ... 10) over that level: typically 1e9-1e11
+                # times the ordinary weights.
+                t0 = np.asarray(s.breakpoints, dtype='f8')
+                A0 = BR.basis_matrix(t0, k, x, extrapolate=True)
+                nfull = A0.shape[1]
+                idx = np.array(case['precise']['idx'])
+                d0 = float((w[:, None] * A0 ** 2).sum(axis=0).min())
+                R = (case['precise']['tau'] * d0 * nfull / 1e-10 - float(w.sum())) / float(w[idx].sum())
+                if R > 10:
+                    w = w.copy()
+                    w[idx] *= R
+                diag = (w[:, None] * A0 ** 2).sum(axis=0)
+                guard = 1e-10 * float(w.sum()) / nfull
+                if not (R > 10 and float(diag.min()) >= 2 * guard):
+                    out.undecide()
+                    return
+                out.count('wellposed_weight_concentrated_on_few_pixels')
+                out.count('wellposed_weight_ratio_over_1e9', R > 1e9)
+                out.count('wellposed_weakest_coefficient_below_1e-10_of_strongest', float(diag.min()) < 1e-10 * float(diag.max()))
+                out.info.update(weight_ratio=R)
             st, yfit = s.fit(x, y, w)
         if not out.expect(st == 0, 'status', 'well-supported fit returned status %r' % (st,)):
             return
@@ -314,6 +359,41 @@ class C09(Check):
                    'linear', 'fit(a*y1+b*y2) != a*fit(y1)+b*fit(y2): dev %.3g scale %.3g' % (float(np.abs(s4.coeff - lin).max()), ls))
         out.nontrivial = (len(case['bkpt']) - 1) >= 4
         out.info.update(order=k, intervals=len(case['bkpt']) - 1, npts=x.size, cond=float(sv[0] / sv[-1]))
+
+    def run_long(self, case, out):
+        B = self.B
+        k, nx = case['nord'], case['nx']
+        g = np.random.default_rng(case['seed'])
+        x = np.sort(g.uniform(0, 10, nx))
+        x[0], x[-1] = 0.0, 10.0
+        w = g.uniform(0.5, 2.0, nx)
+        w[g.uniform(size=nx) < 0.02] = 0.0
+        w[0] = w[-1] = 1.0
+        y = np.sin(x * 1.3) + g.normal(0, 0.1, nx)
+        with warnings.catch_warnings():
+            warnings.simplefilter('ignore')
+            s = B.bspline(x, nord=k, bkpt=np.linspace(0, 10, case['nint'] + 1))
+            st, yfit = s.fit(x, y, w)
+        out.count('long_fits')
+        out.count('long_fits_points_times_order_over_2**21', nx * k > 2 ** 21)
+        if not out.expect(st == 0, 'status', 'well-supported fit of %d points returned status %r' % (nx, st)):
+            return
+        A = BR.basis_matrix(np.asarray(s.breakpoints, dtype='f8'), k, x, extrapolate=True)
+        c, rank, sv = BR.wls(A, y, w)
+        dev = float(np.abs(yfit - A @ c).max())
+        out.expect(dev <= 1e-7, 'optimum', 'fitted values of %d points differ from the dense weighted LS solution by %.3g' % (nx, dev))
+        cdev = float(np.abs(s.coeff - c).max())
+        out.expect(cdev <= 1e-6 * max(float(np.abs(c).max()), 1.0), 'optimum', 'coefficients differ from dense LS by %.3g' % cdev)
+        # the last points count as much as the first: a polynomial below the order, altered at the zero-weight points only
+        p = np.polyval(g.normal(size=k), (x - 5) / 5)
+        p2 = p.copy()
+        p2[w == 0] += 1e3
+        s2 = B.bspline(x, nord=k, bkpt=np.linspace(0, 10, case['nint'] + 1))
+        st2, pf = s2.fit(x, p2, w)
+        out.expect(st2 == 0 and float(np.abs(pf - p).max()) <= 1e-7 * max(float(np.abs(p).max()), 1.0), 'polynomial',
+                   'polynomial of degree %d not reproduced on %d points' % (k - 1, nx))
+        out.nontrivial = True
+        out.info.update(order=k, npts=nx)
 
     def run_cholesky_spd(self, case, out):
         B = self.B
